@@ -548,3 +548,293 @@ Proof.
   assert (Hn : normalized s2 d1 = normalized s1 d1) by (unfold normalized; rewrite Hm2; reflexivity).
   rewrite Hn. apply (renew_rule s1 d1 s2 Er Hp).
 Qed.
+
+(* ---------- joining "any seat" (C18) ---------- *)
+Lemma count_if_zero f s : count_if f s = 0%nat -> forall i, (i < sm_max s)%nat -> f (get_seat s i) = false.
+Proof.
+  unfold count_if, sm_max, get_seat. intros H i Hi.
+  assert (G : forall l : list seat, length (filter f l) = 0%nat -> forall x, In x l -> f x = false).
+  { induction l as [|y t IH]; simpl; [intros _ x []|]. destruct (f y) eqn:E; [discriminate|]. intros H0 x [<-|Hx]; [exact E|apply IH; assumption]. }
+  apply (G _ H). apply nth_In. exact Hi.
+Qed.
+
+Theorem join_any_none_available s c :
+  sm_step s (OJoin (-1) c) = (s, SErrNoAvailableSeat, -1) ->
+  sm_max s = 0%nat \/ forall i, (i < sm_max s)%nat -> s_occ (get_seat s i) = true \/ s_reserved (get_seat s i) = true.
+Proof.
+  cbn [sm_step]. destruct ((zn (sm_max s) <=? -1) || (-1 <? -1)) eqn:E0.
+  - intros _. left. apply orb_prop in E0 as [E|E]; [apply Z.leb_le in E; unfold zn in E; lia|discriminate].
+  - cbn [Z.ltb Z.compare].
+    destruct (Nat.eqb (count_if avail_active s) 0 && Nat.eqb (count_if avail_alt s) 0) eqn:E.
+    + intros _. right. apply andb_prop in E as [E1 E2]. apply Nat.eqb_eq in E1. apply Nat.eqb_eq in E2.
+      intros i Hi. pose proof (count_if_zero _ s E1 i Hi) as A. pose proof (count_if_zero _ s E2 i Hi) as B.
+      unfold avail_active, avail_alt in *. destruct (s_reserved (get_seat s i)); [now right|]. destruct (s_occ (get_seat s i)); [now left|].
+      destruct (s_active (get_seat s i)); simpl in *; discriminate.
+    + destruct (negb (in_range s c)); [intros H; discriminate H|].
+      destruct (if Nat.eqb (count_if avail_active s) 0 then avail_alt (get_seat s (Z.to_nat c)) else avail_active (get_seat s (Z.to_nat c))); [|intros H; discriminate H].
+      unfold do_join. destruct (s_occ (get_seat s (Z.to_nat c))); intros H; discriminate H.
+Qed.
+
+Theorem join_any_takes_a_free_seat s c s' seat :
+  sm_step s (OJoin (-1) c) = (s', SOk, seat) ->
+  seat = c /\ in_range s c = true /\
+  s_occ (get_seat s (Z.to_nat c)) = false /\ s_reserved (get_seat s (Z.to_nat c)) = false /\
+  s_occ (get_seat s' (Z.to_nat c)) = true /\ playable (get_seat s' (Z.to_nat c)) = false /\
+  forall j, j <> Z.to_nat c -> get_seat s' j = get_seat s j.
+Proof.
+  cbn [sm_step]. destruct ((zn (sm_max s) <=? -1) || (-1 <? -1)); [intros H; discriminate H|]. cbn [Z.ltb Z.compare].
+  destruct (Nat.eqb (count_if avail_active s) 0 && Nat.eqb (count_if avail_alt s) 0); [intros H; discriminate H|].
+  destruct (in_range s c) eqn:Er; [|intros H; discriminate H]. cbn [negb].
+  destruct (if Nat.eqb (count_if avail_active s) 0 then avail_alt (get_seat s (Z.to_nat c)) else avail_active (get_seat s (Z.to_nat c))) eqn:Ea; [|intros H; discriminate H].
+  assert (Hfree : s_occ (get_seat s (Z.to_nat c)) = false /\ s_reserved (get_seat s (Z.to_nat c)) = false).
+  { unfold avail_alt, avail_active in Ea. destruct (Nat.eqb _ 0); destruct (s_reserved _), (s_occ _); simpl in Ea; try discriminate; auto. }
+  destruct Hfree as [Ho Hr]. unfold do_join. rewrite Ho. intros H. injection H as <- <-.
+  pose proof (in_range_lt s c Er) as Hlt.
+  split; [rewrite Z2Nat.id; [reflexivity|unfold in_range in Er; apply andb_prop in Er as [E _]; apply Z.leb_le in E; exact E]|].
+  split; [reflexivity|]. split; [first [exact Ho|reflexivity]|]. split; [first [exact Hr|reflexivity]|].
+  unfold get_seat, upd_seat, set_seats, sm_max in *. cbn [sm_seats].
+  split; [rewrite nth_update_nth_same by exact Hlt; reflexivity|].
+  split; [rewrite nth_update_nth_same by exact Hlt; unfold playable; cbn; rewrite andb_false_r; reflexivity|].
+  intros j Hj. rewrite nth_update_nth_other by (intros E; apply Hj; symmetry; exact E). reflexivity.
+Qed.
+
+(* ---------- who becomes active at Next: the newcomer rule (C08) ---------- *)
+Lemma get_seat_upd s i f x : (i < sm_max s)%nat -> get_seat (upd_seat s i f) x = if Nat.eqb x i then f (get_seat s i) else get_seat s x.
+Proof.
+  intros Hi. unfold get_seat, upd_seat, set_seats, sm_max in *. cbn [sm_seats].
+  destruct (Nat.eqb x i) eqn:E.
+  - apply Nat.eqb_eq in E. subst x. apply nth_update_nth_same. exact Hi.
+  - apply Nat.eqb_neq in E. apply nth_update_nth_other. intros H. apply E. symmetry. exact H.
+Qed.
+
+Lemma get_seat_upd_out s i f x : (sm_max s <= i)%nat -> get_seat (upd_seat s i f) x = get_seat s x.
+Proof.
+  intros Hi. unfold get_seat, upd_seat, set_seats, sm_max in *. cbn [sm_seats]. f_equal.
+  revert i Hi. induction (sm_seats s) as [|y t IH]; intros i Hi; [destruct i; reflexivity|].
+  destruct i; simpl in *; [lia|]. f_equal. apply IH. lia.
+Qed.
+
+Lemma activate_all_seat s idxs x :
+  (forall i, In i idxs -> (i < sm_max s)%nat) ->
+  get_seat (activate_all s idxs) x = if existsb (Nat.eqb x) idxs then activate (get_seat s x) else get_seat s x.
+Proof.
+  unfold activate_all. revert s. induction idxs as [|i t IH]; intros s Hr; cbn [fold_left existsb]; [reflexivity|].
+  rewrite IH by (intros j Hj; rewrite sm_max_upd; apply Hr; now right).
+  rewrite get_seat_upd by (apply Hr; now left).
+  destruct (Nat.eqb x i) eqn:E; cbn [orb].
+  - apply Nat.eqb_eq in E. subst x. destruct (existsb (Nat.eqb i) t); [destruct (get_seat s i); reflexivity|reflexivity].
+  - reflexivity.
+Qed.
+
+Lemma deactivate_until_occupied s idxs bb x : s_occ (get_seat s x) = true -> get_seat (deactivate_until s idxs bb) x = get_seat s x.
+Proof.
+  revert s. induction idxs as [|i t IH]; intros s Ho; cbn [deactivate_until]; [reflexivity|].
+  destruct (Nat.eqb i bb); [reflexivity|].
+  destruct (s_occ (get_seat s i)) eqn:E; [apply IH; exact Ho|].
+  destruct (Nat.lt_ge_cases i (sm_max s)) as [Hi|Hi].
+  - assert (Hx : get_seat (upd_seat s i deactivate) x = get_seat s x).
+    { rewrite get_seat_upd by exact Hi. destruct (Nat.eqb x i) eqn:Ex; [apply Nat.eqb_eq in Ex; subst x; rewrite E in Ho; discriminate|reflexivity]. }
+    rewrite IH by (rewrite Hx; exact Ho). exact Hx.
+  - assert (Hx : get_seat (upd_seat s i deactivate) x = get_seat s x) by (apply get_seat_upd_out; exact Hi).
+    rewrite IH by (rewrite Hx; exact Ho). exact Hx.
+Qed.
+
+Definition among (x : nat) (l : list nat) : bool := existsb (Nat.eqb x) l.
+
+(* the seats renewSeatStatus re-activates: those behind the big blind *)
+Definition behind_bb (s : smgr) (d : nat) : list nat :=
+  let orig := normalized s d in
+  let seats := if Nat.eqb (playable_count s) 2 then orig
+               else match find_active s (tl orig) 0 with Some (_, i) => skipn i (tl orig) | None => [] end in
+  match find_active s (tl seats) 0 with
+  | Some (_, i) => tl (skipn i (tl seats))
+  | None => []
+  end.
+
+Lemma in_skipn {A} (x : A) n l : In x (skipn n l) -> In x l.
+Proof. revert l; induction n as [|n IH]; intros l H; [exact H|]. destruct l; [contradiction|]. right. apply IH. exact H. Qed.
+
+Lemma behind_bb_range s d i : In i (behind_bb s d) -> (i < sm_max s)%nat.
+Proof.
+  unfold behind_bb. intros H.
+  assert (G : forall l, (forall j, In j l -> (j < sm_max s)%nat) -> forall j, In j (match find_active s (tl l) 0 with Some (_, k) => tl (skipn k (tl l)) | None => [] end) -> (j < sm_max s)%nat).
+  { intros l Hl j Hj. destruct (find_active s (tl l) 0) as [[b k]|]; [|contradiction]. apply Hl. apply tl_in. apply (in_skipn _ k). apply tl_in. exact Hj. }
+  revert H. apply G. intros j Hj.
+  destruct (Nat.eqb (playable_count s) 2); [apply (normalized_in s d); exact Hj|].
+  destruct (find_active s (tl (normalized s d)) 0) as [[b k]|]; [|contradiction].
+  apply (normalized_in s d). apply tl_in. apply (in_skipn _ k). exact Hj.
+Qed.
+
+(* an occupied seat after renewSeatStatus: active if it was, or if it lies behind the big blind *)
+Lemma renew_seat s d s' x :
+  renew s d = Some s' -> s_occ (get_seat s x) = true ->
+  get_seat s' x = if among x (behind_bb s d) then activate (get_seat s x) else get_seat s x.
+Proof.
+  intros H Ho. pose proof (behind_bb_range s d) as Hr. unfold renew, behind_bb in *.
+  set (orig := normalized s d) in *.
+  destruct (if Nat.eqb (playable_count s) 2 then Some (d, orig) else
+            match find_active s (tl orig) 0 with Some (sb, i) => Some (sb, skipn i (tl orig)) | None => None end) as [[sb seats]|] eqn:E1; [|discriminate].
+  assert (Hseats : seats = (if Nat.eqb (playable_count s) 2 then orig
+                            else match find_active s (tl orig) 0 with Some (_, i) => skipn i (tl orig) | None => [] end)).
+  { destruct (Nat.eqb (playable_count s) 2); [injection E1 as _ <-; reflexivity|].
+    destruct (find_active s (tl orig) 0) as [[b k]|]; [injection E1 as _ <-; reflexivity|discriminate]. }
+  rewrite <- Hseats in Hr |- *.
+  destruct (find_active s (tl seats) 0) as [[bb i]|]; [|discriminate]. injection H as <-.
+  set (s1 := mkSM (sm_seats s) (sm_dealer s) (Some sb) (Some bb)).
+  assert (Hmax : sm_max (deactivate_until s1 orig bb) = sm_max s).
+  { assert (G : forall idxs s0 b, sm_max (deactivate_until s0 idxs b) = sm_max s0).
+    { induction idxs as [|k t IH]; intros s0 b; cbn [deactivate_until]; [reflexivity|]. destruct (Nat.eqb k b); [reflexivity|].
+      destruct (s_occ (get_seat s0 k)); [apply IH|rewrite IH; apply sm_max_upd]. }
+    rewrite G. reflexivity. }
+  rewrite activate_all_seat by (intros j Hj; rewrite Hmax; apply Hr; exact Hj).
+  rewrite (deactivate_until_occupied s1 orig bb x Ho). reflexivity.
+Qed.
+
+Lemma firstn_In {A} (x : A) n l : In x (firstn n l) -> In x l.
+Proof. revert l; induction n as [|n IH]; intros l H; [contradiction|]. destruct l; [contradiction|]. destruct H as [H|H]; [now left|right; apply IH; exact H]. Qed.
+
+Lemma activate_idem y : activate (activate y) = activate y. Proof. reflexivity. Qed.
+
+(* every occupied seat after a successful move to the next hand (at least two players could play):
+   it is made active exactly when the button has passed it or it lies behind the new big blind *)
+Theorem sm_next_seat s s' :
+  (2 <= playable_count s)%nat -> (forall d, sm_dealer s = Some d -> (d < sm_max s)%nat) -> sm_next s = (s', SOk) ->
+  exists d' pos, find_active s (scan_list s) 0 = Some (d', pos) /\ sm_dealer s' = Some d' /\
+    forall x, s_occ (get_seat s x) = true ->
+      get_seat s' x = if among x (firstn pos (scan_list s)) || among x (behind_bb (fst (next_dealer s)) d')
+                      then activate (get_seat s x) else get_seat s x.
+Proof.
+  intros Hc Hd H.
+  assert (Hpos : (0 < pc s (scan_list s))%nat).
+  { unfold scan_list. destruct (sm_dealer s) as [d|] eqn:E.
+    - rewrite (tl_normalized_pc s d (Hd d eq_refl)). destruct (pl s d); lia.
+    - rewrite pc_normalized. lia. }
+  destruct (find_active_some s (scan_list s) 0 Hpos) as (d' & pos & Ef).
+  exists d', pos. split; [exact Ef|].
+  unfold sm_next in H. unfold next_dealer in *.
+  replace (Nat.eqb (playable_count s) 1) with false in * by (symmetry; apply Nat.eqb_neq; lia).
+  fold (scan_list s) in *. rewrite Ef in *. cbn [fst snd] in *.
+  set (s1 := set_dealer (activate_all s (firstn pos (scan_list s))) (Some d')) in *.
+  destruct (Nat.ltb (playable_count s1) 2); [discriminate|].
+  destruct (renew s1 d') as [s2|] eqn:Er; [|discriminate]. injection H as <-.
+  (* the seats the button passed are seats of the table *)
+  assert (Hrange : forall i, In i (firstn pos (scan_list s)) -> (i < sm_max s)%nat).
+  { intros i Hi. apply firstn_In in Hi. unfold scan_list in Hi. destruct (sm_dealer s) as [d|]; [apply (normalized_in s d); apply tl_in; exact Hi|apply (normalized_in s 0); exact Hi]. }
+  assert (Hs1 : forall x, get_seat s1 x = if among x (firstn pos (scan_list s)) then activate (get_seat s x) else get_seat s x).
+  { intros x. unfold s1. change (get_seat (set_dealer ?y ?d) x) with (get_seat y x). apply activate_all_seat. exact Hrange. }
+  split.
+  - (* renew keeps the dealer *)
+    pose proof Er as Er'. unfold renew in Er'.
+    destruct (if Nat.eqb (playable_count s1) 2 then _ else _) as [[sbx seats]|]; [|discriminate].
+    destruct (find_active s1 (tl seats) 0) as [[bbx i]|]; [|discriminate]. injection Er' as <-.
+    assert (G1 : forall idxs s0, sm_dealer (activate_all s0 idxs) = sm_dealer s0).
+    { unfold activate_all. induction idxs as [|k t IH]; intros s0; simpl; [reflexivity|]. rewrite IH. reflexivity. }
+    assert (G2 : forall idxs s0 b, sm_dealer (deactivate_until s0 idxs b) = sm_dealer s0).
+    { induction idxs as [|k t IH]; intros s0 b; simpl; [reflexivity|]. destruct (Nat.eqb k b); [reflexivity|].
+      rewrite IH. destruct (s_occ _); reflexivity. }
+    rewrite G1, G2. reflexivity.
+  - intros x Ho.
+    assert (Ho1 : s_occ (get_seat s1 x) = true) by (rewrite Hs1; destruct (among x _); [destruct (get_seat s x); exact Ho|exact Ho]).
+    rewrite (renew_seat s1 d' s2 x Er Ho1), Hs1.
+    destruct (among x (firstn pos (scan_list s))), (among x (behind_bb s1 d')); cbn [orb]; reflexivity.
+Qed.
+
+(* the newcomer: an occupied, non-reserved seat that is not active (a player who took a seat the button had
+   not passed yet) is dealt in at this move exactly when the button passes it or it lies behind the new big blind *)
+Theorem newcomer_dealt_in s s' x :
+  (2 <= playable_count s)%nat -> (forall d, sm_dealer s = Some d -> (d < sm_max s)%nat) -> sm_next s = (s', SOk) ->
+  s_occ (get_seat s x) = true -> s_reserved (get_seat s x) = false -> s_active (get_seat s x) = false ->
+  exists d' pos, find_active s (scan_list s) 0 = Some (d', pos) /\
+    (pl s' x = true <-> among x (firstn pos (scan_list s)) = true \/ among x (behind_bb (fst (next_dealer s)) d') = true).
+Proof.
+  intros Hc Hd H Ho Hr Ha. destruct (sm_next_seat s s' Hc Hd H) as (d' & pos & Ef & _ & Hx).
+  exists d', pos. split; [exact Ef|]. unfold pl. rewrite (Hx x Ho).
+  destruct (among x (firstn pos (scan_list s))), (among x (behind_bb (fst (next_dealer s)) d')); cbn [orb];
+    unfold playable, activate; cbn [s_occ s_active s_reserved]; rewrite ?Ho, ?Hr, ?Ha; cbn; intuition discriminate.
+Qed.
+
+(* an empty seat between the dealer and the big blind is switched off by the move: whoever takes it later is
+   held out until the button has passed *)
+Lemma deactivate_until_prefix s l1 bb l2 x :
+  ~ In bb l1 -> In x l1 -> (x < sm_max s)%nat -> s_occ (get_seat s x) = false ->
+  s_active (get_seat (deactivate_until s (l1 ++ bb :: l2) bb) x) = false.
+Proof.
+  revert s. induction l1 as [|i t IH]; intros s Hn Hin Hx Ho; [contradiction|].
+  cbn [app deactivate_until].
+  replace (Nat.eqb i bb) with false by (symmetry; apply Nat.eqb_neq; intros E; apply Hn; left; exact E).
+  assert (Hn' : ~ In bb t) by (intros H; apply Hn; now right).
+  assert (Keep : forall s0, sm_max s0 = sm_max s -> s_occ (get_seat s0 x) = false -> s_active (get_seat s0 x) = false ->
+            s_active (get_seat (deactivate_until s0 (t ++ bb :: l2) bb) x) = false).
+  { clear IH Hin. intros s0. generalize (t ++ bb :: l2). intros l. revert s0. induction l as [|k r IHl]; intros s0 Hm Ho0 Ha0; cbn [deactivate_until]; [exact Ha0|].
+    destruct (Nat.eqb k bb); [exact Ha0|]. destruct (s_occ (get_seat s0 k)) eqn:Ek; [apply IHl; assumption|].
+    apply IHl; [rewrite sm_max_upd; exact Hm| |].
+    - destruct (Nat.lt_ge_cases k (sm_max s0)) as [Hk|Hk]; [rewrite get_seat_upd by exact Hk; destruct (Nat.eqb x k); [exact Ek|exact Ho0]|rewrite get_seat_upd_out by exact Hk; exact Ho0].
+    - destruct (Nat.lt_ge_cases k (sm_max s0)) as [Hk|Hk]; [rewrite get_seat_upd by exact Hk; destruct (Nat.eqb x k); [reflexivity|exact Ha0]|rewrite get_seat_upd_out by exact Hk; exact Ha0]. }
+  destruct (Nat.eq_dec i x) as [->|Hne].
+  - rewrite Ho. apply Keep; [apply sm_max_upd|rewrite get_seat_upd by exact Hx; rewrite Nat.eqb_refl; exact Ho|rewrite get_seat_upd by exact Hx; rewrite Nat.eqb_refl; reflexivity].
+  - destruct Hin as [E|Hin]; [contradiction|].
+    destruct (s_occ (get_seat s i)) eqn:Ei; [apply IH; assumption|].
+    destruct (Nat.lt_ge_cases i (sm_max s)) as [Hi|Hi].
+    + apply IH; [exact Hn'|exact Hin|rewrite sm_max_upd; exact Hx|].
+      rewrite get_seat_upd by exact Hi. replace (Nat.eqb x i) with false by (symmetry; apply Nat.eqb_neq; intros E; apply Hne; symmetry; exact E). exact Ho.
+    + apply IH; [exact Hn'|exact Hin|rewrite sm_max_upd; exact Hx|]. rewrite get_seat_upd_out by exact Hi. exact Ho.
+Qed.
+
+Theorem renew_switches_off_empty_seats s d s' :
+  renew s d = Some s' -> pl s d = true -> (d < sm_max s)%nat ->
+  exists front bb post, tl (normalized s d) = front ++ bb :: post /\ sm_bb s' = Some bb /\ ~ In bb front /\
+    forall x, In x front -> s_occ (get_seat s x) = false -> s_active (get_seat s' x) = false.
+Proof.
+  intros H Hp Hd. pose proof (normalized_nodup s d) as Hnd. pose proof (normalized_head s d Hd) as Hhd.
+  set (rest := tl (normalized s d)) in *. rewrite Hhd in Hnd. inversion Hnd as [|? ? Hdn Hnd']; subst.
+  assert (Hrange : forall i, In i rest -> (i < sm_max s)%nat) by (intros i Hi; apply (normalized_in s d); rewrite Hhd; now right).
+  unfold renew in H. fold rest in H. rewrite Hhd in H. cbn [tl] in H.
+  (* both cases end with: seats = sbx :: tail, bb found in tail *)
+  assert (Core : forall sbx front0 tail bb j s2,
+            rest = front0 ++ tail -> find_active s tail 0 = Some (bb, j) ->
+            s2 = activate_all (deactivate_until (mkSM (sm_seats s) (sm_dealer s) (Some sbx) (Some bb)) (d :: rest) bb) (tl (skipn j tail)) ->
+            exists front post, rest = front ++ bb :: post /\ sm_bb s2 = Some bb /\ ~ In bb front /\
+              forall x, In x front -> s_occ (get_seat s x) = false -> s_active (get_seat s2 x) = false).
+  { intros sbx front0 tail bb j s2 Er Ef ->.
+    destruct (find_active_first s tail bb j Ef) as (mid & post & Et & Hl & _ & _).
+    exists (front0 ++ mid), post.
+    assert (Erest : rest = (front0 ++ mid) ++ bb :: post) by (rewrite Er, Et, <- app_assoc; reflexivity).
+    assert (Hnin : ~ In bb (front0 ++ mid)).
+    { intros Hin. rewrite Erest in Hnd'. apply (NoDup_app_disj _ _ bb Hnd' Hin). now left. }
+    assert (Hbbd : bb <> d) by (intros ->; apply Hdn; rewrite Erest; apply in_or_app; right; now left).
+    split; [exact Erest|]. split.
+    - assert (G1 : forall idxs s0, sm_bb (activate_all s0 idxs) = sm_bb s0).
+      { unfold activate_all. induction idxs as [|k t IH]; intros s0; simpl; [reflexivity|]. rewrite IH. reflexivity. }
+      assert (G2 : forall idxs s0 b, sm_bb (deactivate_until s0 idxs b) = sm_bb s0).
+      { induction idxs as [|k t IH]; intros s0 b; simpl; [reflexivity|]. destruct (Nat.eqb k b); [reflexivity|]. rewrite IH. destruct (s_occ _); reflexivity. }
+      rewrite G1, G2. reflexivity.
+    - split; [exact Hnin|]. intros x Hx Ho.
+      assert (Hsk : skipn j tail = bb :: post) by (rewrite Et, <- Hl; apply skipn_app_exact). rewrite Hsk. cbn [tl].
+      set (s1 := mkSM (sm_seats s) (sm_dealer s) (Some sbx) (Some bb)).
+      assert (Hmax : sm_max (deactivate_until s1 (d :: rest) bb) = sm_max s).
+      { assert (G : forall idxs s0 b, sm_max (deactivate_until s0 idxs b) = sm_max s0).
+        { induction idxs as [|k t IH]; intros s0 b; cbn [deactivate_until]; [reflexivity|]. destruct (Nat.eqb k b); [reflexivity|].
+          destruct (s_occ (get_seat s0 k)); [apply IH|rewrite IH; apply sm_max_upd]. }
+        rewrite G. reflexivity. }
+      rewrite activate_all_seat by (intros k Hk; rewrite Hmax; apply Hrange; rewrite Erest; apply in_or_app; right; now right).
+      assert (Hnot : among x post = false).
+      { destruct (among x post) eqn:E; [|reflexivity]. exfalso. unfold among in E. apply existsb_exists in E as (y & Hy & Ey). apply Nat.eqb_eq in Ey. subst y.
+        rewrite Erest in Hnd'. apply (NoDup_app_disj _ _ x Hnd' Hx). now right. }
+      unfold among in Hnot. rewrite Hnot.
+      rewrite Erest. change (d :: (front0 ++ mid) ++ bb :: post) with ((d :: front0 ++ mid) ++ bb :: post).
+      apply deactivate_until_prefix.
+      + intros [E|E]; [apply Hbbd; symmetry; exact E|apply Hnin; exact E].
+      + now right.
+      + apply Hrange. rewrite Erest. apply in_or_app. now left.
+      + exact Ho. }
+  revert H. destruct (Nat.eqb (playable_count s) 2).
+  - cbn [tl]. destruct (find_active s rest 0) as [[bb j]|] eqn:Ef; [|intros H; discriminate H]. intros H. injection H as <-.
+    destruct (Core d [] rest bb j _ eq_refl Ef eq_refl) as (front & post & A & B & C & D). exists front, bb, post. auto.
+  - destruct (find_active s rest 0) as [[sb i]|] eqn:Es; [|intros H; discriminate H].
+    destruct (find_active_first s rest sb i Es) as (pre & post1 & Er & Hl & _ & _).
+    assert (Hsk : skipn i rest = sb :: post1) by (rewrite Er, <- Hl; apply skipn_app_exact).
+    rewrite Hsk. cbn [tl].
+    destruct (find_active s post1 0) as [[bb j]|] eqn:Eb; [|intros H; discriminate H]. intros H. injection H as <-.
+    destruct (Core sb (pre ++ [sb]) post1 bb j _ ltac:(rewrite Er, <- app_assoc; reflexivity) Eb eq_refl) as (front & post & A & B & C & D).
+    exists front, bb, post. auto.
+Qed.
